@@ -6,6 +6,8 @@ CONSTANTS
     Loop = "copy"
     Family = "accum"
     Tier = "quick"
+    NanRule = "notconverged"
+    FluxRule = "segment"
     Reporter = "earlier"
     EmitOn = FALSE
 INIT Init
